@@ -64,7 +64,7 @@ def run(rep):
         raise tlc.MachineryError("the generator printed nothing")
     if not quick:
         for d in C23_DEVS:     # the module is not vacuous: each clause breaks NoLeak
-            _, rv = mg.tlc_generate("quick", dev=d)
+            rv = mg.tlc_invariants(rep.tier, d)
             if rv.violated != "NoLeak":
                 raise tlc.MachineryError(f"deviation {d} does not violate NoLeak in the model ({rv.violated}, {rv.error})")
             rep.note(f"Dev={{{d}}}: NoLeak violated in the model, as it must be")
